@@ -9,7 +9,7 @@ Tr == JsonDeserialize(IOEnv.TRACE_FILE)
 
 CONSTANTS Judge,
           Dev_C12_InputMomentum, Dev_C12_ScaleOne, Dev_C10_GroupSizeLost, Dev_C10_LayerNormTarget, Dev_C10_ScaleDtype,
-          Dev_C09_DeepCopyQBits, Dev_C08_ScaleDtype, Dev_C08_CopyPlain, Dev_C07_F16Float8Act
+          Dev_C09_DeepCopyQBits, Dev_C08_ScaleDtype, Dev_C05_CopyPlain, Dev_C07_F16Float8Act, Dev_C08_LayerNormNoAffine
 
 VARIABLES tid, l, dev,
           open,      \* number of calibration contexts currently open
@@ -253,17 +253,21 @@ DevSig(d, e) ==
     [] d \in {"Dev_C10_GroupSizeLost", "Dev_C10_LayerNormTarget", "Dev_C10_ScaleDtype"} -> Judge = "C10" /\ C10DevSig(d, e)
     [] d = "Dev_C08_ScaleDtype" -> Judge \in {"C08", "C11"} /\ e.act = "Forward" /\ e.outcome = "ok"
                                    /\ \A k \in 1..Len(e.recipes) : RecipeOK(e.recipes[k]) \/ RecipeDtypeDev(e.recipes[k])
-    [] d = "Dev_C08_CopyPlain" -> Judge \in {"C08", "C11", "C09", "C13"} /\ e.act \in {"Forward", "Freeze", "DeepCopy", "OptStep", "CalibBatch"}
+    [] d = "Dev_C08_LayerNormNoAffine" ->
+         /\ e.act = "Quantize" /\ e.outcome = "AttributeError" /\ e.args.aq # "none"
+         /\ \E i \in 1..Len(e.mods) : e.mods[i].kind = "LayerNorm" /\ e.mods[i].hyper.elementwise_affine = "False"
+    [] d = "Dev_C05_CopyPlain" -> Judge \in {"C08", "C11", "C09", "C13"} /\ e.act \in {"Forward", "Freeze", "DeepCopy", "OptStep", "CalibBatch"}
                                   /\ e.outcome \in {"AttributeError", "AssertionError"}
                                   /\ \E i \in 1..Len(e.mods) : e.mods[i].kind = "Conv2d" /\ e.mods[i].hyper.padding_mode = "circular" /\ e.mods[i].aq # "none"
     [] OTHER -> FALSE
-DevOn == {d \in {"Dev_C07_F16Float8Act", "Dev_C12_InputMomentum", "Dev_C12_ScaleOne", "Dev_C10_GroupSizeLost", "Dev_C10_LayerNormTarget", "Dev_C10_ScaleDtype",
-                 "Dev_C09_DeepCopyQBits", "Dev_C08_ScaleDtype", "Dev_C08_CopyPlain"} :
+DevOn == {d \in {"Dev_C08_LayerNormNoAffine", "Dev_C07_F16Float8Act", "Dev_C12_InputMomentum", "Dev_C12_ScaleOne", "Dev_C10_GroupSizeLost", "Dev_C10_LayerNormTarget", "Dev_C10_ScaleDtype",
+                 "Dev_C09_DeepCopyQBits", "Dev_C08_ScaleDtype", "Dev_C05_CopyPlain"} :
             CASE d = "Dev_C12_InputMomentum" -> Dev_C12_InputMomentum [] d = "Dev_C12_ScaleOne" -> Dev_C12_ScaleOne
               [] d = "Dev_C07_F16Float8Act" -> Dev_C07_F16Float8Act
+              [] d = "Dev_C08_LayerNormNoAffine" -> Dev_C08_LayerNormNoAffine
               [] d = "Dev_C10_GroupSizeLost" -> Dev_C10_GroupSizeLost [] d = "Dev_C10_LayerNormTarget" -> Dev_C10_LayerNormTarget
               [] d = "Dev_C10_ScaleDtype" -> Dev_C10_ScaleDtype [] d = "Dev_C09_DeepCopyQBits" -> Dev_C09_DeepCopyQBits
-              [] d = "Dev_C08_ScaleDtype" -> Dev_C08_ScaleDtype [] d = "Dev_C08_CopyPlain" -> Dev_C08_CopyPlain}
+              [] d = "Dev_C08_ScaleDtype" -> Dev_C08_ScaleDtype [] d = "Dev_C05_CopyPlain" -> Dev_C05_CopyPlain}
 
 TInit == /\ tid \in 1..Len(Tr) /\ l = 1 /\ dev = {} /\ open = 0
          /\ base = [pre_hooks |-> 0, post_hooks |-> 0, modes |-> 0] /\ upd = <<>> /\ qargs = [ms |-> <<>>]
